@@ -4,11 +4,58 @@
 //! ground-truth structure: named regions in file order (contiguous, covering the file) and, for
 //! BMFF / TIFF, the table of absolute offsets stored in the file with the bytes they address.
 //! Only structures that the SDK's handler for the format accepts are produced (validated by
-//! `toolkit_selftest`); the image / audio payloads are random (nothing in the SDK decodes them
-//! when thumbnails are off).
+//! `toolkit_selftest`: 0 rejections in 3 x 200 instances per kind); the image / audio payloads are
+//! random (nothing in the SDK decodes them when thumbnails are off).
 //!
-//! Region naming: `"<unit>[<n>].<field>"` (e.g. `IDAT[2].crc`, `APP1[0].len`, `moov/trak[0]/mdia/minf/stbl/stco.data`);
-//! everything up to the last `.` names the structural unit, the suffix the field inside it.
+//! Entry points: `synth` (random instance), `synth_default` (simplest fixed instance),
+//! `synth_with_store` (instance that already carries a manifest store at a generated position),
+//! `synth_variant` (spec-valid structures the SDK mis-parses, see `VARIANTS`), `fake_store`,
+//! `Mutation` / `apply` / `changed_span` / `stratified_positions` / `random_mutation`.
+//!
+//! Region naming: `"<unit>[<n>].<field>"` (e.g. `IDAT[2].crc`, `APP1[0].len`,
+//! `moov[0]/trak[0]/mdia[0]/minf[0]/stbl[0]/stco[0].data`); everything up to the last `.` names the
+//! structural unit (`Region::unit`), the suffix the field inside it. Units that hold a manifest store
+//! start with `C2PA`.
+//!
+//! Knobs per kind (all drawn from the rng; `Synth::desc` records the notable ones):
+//! * jpeg: JFIF first / later / absent, JFXX, Exif, XMP, ICC, APP13, APP14, other APPn, COM x0..2, APP11 that is
+//!   not C2PA (short, or a JUMBF box of another type), DQT/DHT/SOF/DRI/COM order, SOF0 or progressive SOF2
+//!   with 2..4 scans, 1 or 3 components, restart markers, byte stuffing, trailing bytes or an MPF-style second
+//!   image after EOI; existing store in 1..n APP11 segments at any position among the APP segments.
+//! * png: colour type, 1..5 IDAT (valid stored-deflate zlib stream), gAMA/cHRM/sRGB/pHYs/tEXt/zTXt/iTXt(XMP)/
+//!   tIME/private chunks in random order, PLTE, chunks after IDAT, zero-length chunks, trailing bytes after
+//!   IEND; existing caBX before IHDR / after IHDR / before IDAT / before IEND.
+//! * gif: 87a (images only) or 89a, GCT on/off and size, NETSCAPE / XMP (magic trailer) / unknown application
+//!   extensions, comment, plain text (fg index 1, see VARIANTS), graphic control with or without a following
+//!   image, 1..4 images with optional local colour tables and interlace flag, sub-block sizes 1..255,
+//!   trailing bytes after the trailer; existing C2PA block anywhere before the first image.
+//! * wav / webp / avi: chunk order, odd-sized chunks with pad byte, LIST INFO with odd sub-chunks, JUNK, bext,
+//!   fact, cue, _PMX (XMP) for WAV; VP8 / VP8L / VP8X(+ICCP, ALPH, EXIF, XMP, unknown) for WebP; hdrl/strl,
+//!   movi with odd frames, idx1, INFO, JUNK and 0..2 further RIFF AVIX chunks for AVI; existing C2PA chunk at
+//!   any child position of the first RIFF chunk.
+//! * tiff: II / MM, 1..3 pages, strips or tiles (1..4), 1 or 3 samples, SHORT or LONG counts, inline and
+//!   out-of-line values, ImageDescription, resolutions, Software, XMP (700), Exif IFD, 1..2 SubIFDs, all blobs
+//!   (IFDs, values, strips) placed in random file order on word boundaries with optional gaps, trailing
+//!   bytes; existing store in the only IFD or in an IFD of its own after the last page.
+//! * svg: BOM, XML declaration, comment, DOCTYPE, attribute quoting, shapes / groups (with nested metadata) /
+//!   text with entities / CDATA / comments, title, desc, non-ASCII text, 0..1 top-level `<metadata>` (empty,
+//!   XMP packet, RDF), separators, trailing comment; existing `c2pa:manifest` first or last in metadata.
+//! * mp3: with / without ID3v2.3 or v2.4 tag (text frames Latin-1 or UTF-8, COMM, PRIV, GEOB, APIC, padding),
+//!   CBR frames with and without padding bit, ID3v1 trailer; existing C2PA GEOB frame at any frame position.
+//! * flac: optional ID3v2 prefix, STREAMINFO + VORBIS_COMMENT / PADDING / APPLICATION / SEEKTABLE / PICTURE in
+//!   random order, frames; existing C2PA GEOB frame in the ID3 prefix (where this SDK stores it).
+//! * jxl: `JXL ` + ftyp, jxll, jxlc or jxlp x1..3, Exif / xml / non-C2PA jumb / unknown boxes before or after the
+//!   codestream, 64-bit largesize header, last box with size 0; existing C2PA jumb before or after.
+//! * mp4 / mov / m4a / heic / avif: ftyp brands; moov with 1..3 traks (stco or co64, fixed or per-sample stsz,
+//!   stsc runs, stss, edts, udta with meta/ilst), meta with hdlr/pitm/iloc (v0/v1/v2, offset size 0/4/8,
+//!   length size 4/8, base offset size 0/4/8 with relative extents, 1..3 items x 1..2 extents, idat
+//!   construction method 1)/iinf/iprp, 1..2 mdat with 32-bit, 64-bit largesize or size-0 headers and
+//!   filler bytes, chunks of several tracks interleaved and spread over the mdats, free/skip/wide/XMP-uuid,
+//!   **top-level box order a generated permutation** (ftyp first); existing C2PA uuid box anywhere in
+//!   that permutation (mdat before or after it).
+//!
+//! Not generated (gaps): BigTIFF, fragmented BMFF (moof/tfhd/saio/mfra/sidx), QuickTime `meta` without
+//! FullBox header, JPEG XL `brob`, ID3v2.2 / unsynchronisation / extended header, PDF.
 
 use serde::{Deserialize, Serialize};
 
@@ -92,25 +139,43 @@ pub fn kind_format(kind: &str) -> (&'static str, &'static str) {
 /// Random instance of `kind`; payload sizes around `size_hint` bytes (0 ⇒ a default drawn from 300..6000).
 pub fn synth(kind: &str, rng: &mut SplitMix64, size_hint: usize) -> Synth {
     let size = if size_hint == 0 { rng.range(300, 6000) as usize } else { size_hint };
-    let mut cx = Cx { r: rng, simple: false, size, store: None };
+    let mut cx = Cx { r: rng, simple: false, size, store: None, variant: "" };
     dispatch(kind, &mut cx)
 }
 
 /// The simplest fixed instance of `kind`.
 pub fn synth_default(kind: &str) -> Synth {
     let mut rng = SplitMix64::new(0);
-    let mut cx = Cx { r: &mut rng, simple: true, size: 256, store: None };
+    let mut cx = Cx { r: &mut rng, simple: true, size: 256, store: None, variant: "" };
     dispatch(kind, &mut cx)
 }
 
 /// Like `synth`, but the asset already carries `store` in the format's manifest container, at a
 /// position drawn from the positions the format allows (region unit name `C2PA…`). For BMFF the C2PA
 /// `uuid` box takes part in the box-order permutation, so `mdat` may precede it.
-/// Supported: jpeg, png, gif, wav, webp, avi, jxl, mp4, mov, heic, avif, m4a, mp3, flac, c2pa
-/// (tiff and svg fall back to `synth`, i.e. no store).
+/// Supported by every kind (TIFF: tag 0xCD41 in the only IFD, or in an IFD of its own appended to a
+/// multi-page chain; SVG: `metadata/c2pa:manifest`).
 pub fn synth_with_store(kind: &str, rng: &mut SplitMix64, size_hint: usize, store: &[u8]) -> Synth {
     let size = if size_hint == 0 { rng.range(300, 6000) as usize } else { size_hint };
-    let mut cx = Cx { r: rng, simple: false, size, store: Some(store.to_vec()) };
+    let mut cx = Cx { r: rng, simple: false, size, store: Some(store.to_vec()), variant: "" };
+    dispatch(kind, &mut cx)
+}
+
+/// Structures that are valid per the format specification but that the SDK's handler is known to
+/// mis-parse; the regular generators avoid them (soundness), checks can use them as finding probes.
+pub const VARIANTS: &[(&str, &str)] = &[
+    ("gif", "plaintext-fg"),       // plain text extension with a foreground colour index other than 1
+    ("heic", "iloc-v1-base-noindex"), // iloc version 1, base_offset_size 4, index_size 0
+    ("heic", "iloc-zero-base"),    // iloc base_offset_size 4 with base_offset 0 and absolute extent offsets
+    ("avif", "iloc-v1-base-noindex"),
+    ("avif", "iloc-zero-base"),
+];
+
+/// Like `synth`, with one of `VARIANTS` forced on (panics on an unknown (kind, variant) pair).
+pub fn synth_variant(kind: &str, rng: &mut SplitMix64, size_hint: usize, variant: &str) -> Synth {
+    let v = VARIANTS.iter().find(|(k, v)| *k == kind && *v == variant).unwrap_or_else(|| panic!("vh::assets: no variant {variant} for {kind}")).1;
+    let size = if size_hint == 0 { rng.range(300, 6000) as usize } else { size_hint };
+    let mut cx = Cx { r: rng, simple: false, size, store: None, variant: v };
     dispatch(kind, &mut cx)
 }
 
@@ -401,6 +466,8 @@ struct Cx<'a> {
     size: usize,
     /// pre-existing manifest store to embed (synth_with_store)
     store: Option<Vec<u8>>,
+    /// spec-valid structure the SDK is known to mis-parse (synth_variant), "" = none
+    variant: &'static str,
 }
 
 impl Cx<'_> {
@@ -882,7 +949,7 @@ fn gen_png(cx: &mut Cx, w: &mut W) {
     let height = (cx.size / (width * channels + 1)).max(1);
     let store = cx.store.clone();
     // a pre-existing caBX can sit before IHDR (the SDK handles that layout), right after it, or later
-    let cabx_pos = if store.is_some() { cx.range(0, 3) } else { 9 };
+    let cabx_pos = if store.is_some() { cx.range(0, 2) } else { 9 };
     if cabx_pos == 0 {
         png_chunk(w, b"caBX", store.as_ref().unwrap());
         w.note("c2pa-before-IHDR");
@@ -1048,7 +1115,7 @@ fn gen_gif(cx: &mut Cx, w: &mut W) {
     if cx.chance(1, 3) {
         lead.push(B::Comment);
     }
-    if cx.chance(1, 8) {
+    if cx.chance(1, 8) || cx.variant == "plaintext-fg" {
         lead.push(B::PlainText);
     }
     if cx.store.is_some() {
@@ -1148,7 +1215,8 @@ fn gen_gif(cx: &mut Cx, w: &mut W) {
                 d.extend_from_slice(&le16(cx.range(0, 20)));
                 d.extend_from_slice(&le16(cx.range(1, 100)));
                 d.extend_from_slice(&le16(cx.range(1, 100)));
-                d.extend_from_slice(&[8, 8, 1, cx.range(0, 255) as u8]);
+                let fg = if cx.variant == "plaintext-fg" { *cx.r.pick(&[0u8, 2, 3, 7, 200]) } else { 1 };
+                d.extend_from_slice(&[8, 8, fg, cx.range(0, 255) as u8]);
                 w.put(format!("{u}.hdr"), &d);
                 let n = cx.range(0, 80);
                 let p = cx.ascii(n);
@@ -1601,7 +1669,23 @@ fn gen_tiff(cx: &mut Cx, w: &mut W) {
         let id = image_ifd(cx, &mut blobs, &format!("ifd{p}"), p == 0, cx.size / npages, &u16b, &u32b, true);
         page_ifds.push(id);
     }
-    for p in 0..npages.saturating_sub(1) {
+    if let Some(store) = cx.store.clone() {
+        let ent = TEnt { tag: 0xCD41, typ: 7, count: store.len() as u32, val: TVal::Bytes(store) };
+        if npages == 1 {
+            // single page: the C2PA tag lives in the only IFD
+            if let TBlob::Ifd(ents, _) = &mut blobs[page_ifds[0]].blob {
+                ents.push(ent);
+                ents.sort_by_key(|e| e.tag);
+            }
+            w.note("c2pa-in-ifd0");
+        } else {
+            // multi page: an IFD of its own at the end of the chain
+            blobs.push(TB { name: format!("ifd{npages}"), blob: TBlob::Ifd(vec![ent], None), off: 0 });
+            page_ifds.push(blobs.len() - 1);
+            w.note("c2pa-own-ifd");
+        }
+    }
+    for p in 0..page_ifds.len().saturating_sub(1) {
         let next = page_ifds[p + 1];
         if let TBlob::Ifd(_, n) = &mut blobs[page_ifds[p]].blob {
             *n = Some(next);
@@ -1620,7 +1704,8 @@ fn gen_tiff(cx: &mut Cx, w: &mut W) {
                     TVal::Offsets(ids) | TVal::Ifds(ids) if ids.len() > 1 => TBlob::OffArray(ids.clone()),
                     _ => continue,
                 };
-                new_blobs.push(TB { name: format!("{name}.tag{}.data", e.tag), blob: nb, off: 0 });
+                let bname = if e.tag == 0xCD41 { "C2PA.data".to_string() } else { format!("{name}.tag{}.data", e.tag) };
+                new_blobs.push(TB { name: bname, blob: nb, off: 0 });
                 e.val = TVal::Offsets(vec![base + new_blobs.len() - 1]);
             }
         }
@@ -1732,6 +1817,9 @@ fn gen_svg(cx: &mut Cx, w: &mut W) {
     if cx.chance(1, 2) {
         open.push_str(" xmlns:xlink=\"http://www.w3.org/1999/xlink\"");
     }
+    if cx.store.is_some() {
+        open.push_str(" xmlns:c2pa=\"http://c2pa.org/manifest\"");
+    }
     open.push_str(&format!(" width=\"{sw}\" height='{sh}'"));
     if cx.chance(1, 2) {
         open.push_str(&format!(" viewBox=\"0 0 {sw} {sh}\""));
@@ -1762,7 +1850,8 @@ fn gen_svg(cx: &mut Cx, w: &mut W) {
     }
     cx.shuffle(&mut kids);
     // at most one top-level <metadata> element (start/end form), optionally with XMP inside
-    let meta = cx.range(0, 3);
+    let meta = if cx.store.is_some() { cx.range(1, 3) } else { cx.range(0, 3) };
+    let mut c2pa_child = usize::MAX;
     if meta > 0 {
         let inner = match meta {
             1 => String::new(),
@@ -1770,14 +1859,32 @@ fn gen_svg(cx: &mut Cx, w: &mut W) {
             _ => "<rdf:RDF xmlns:rdf=\"http://www.w3.org/1999/02/22-rdf-syntax-ns#\"><rdf:Description/></rdf:RDF>".to_string(),
         };
         let at = cx.range(0, kids.len());
+        let mut inner = inner;
+        if let Some(st) = &cx.store {
+            use base64::Engine;
+            let enc = base64::engine::general_purpose::STANDARD.encode(st);
+            // the manifest element first (where the SDK writes it) or after the other metadata content
+            let el = format!("<c2pa:manifest>{enc}</c2pa:manifest>");
+            inner = if cx.chance(1, 3) { format!("{inner}{el}") } else { format!("{el}{inner}") };
+            c2pa_child = at;
+        }
         kids.insert(at, format!("<metadata>{inner}</metadata>"));
         w.note(format!("metadata{meta}"));
     }
     let sep = cx.pick(&["\n  ", "\n", "", "\r\n\t"]);
-    for k in kids.iter() {
+    for (i, k) in kids.iter().enumerate() {
         if !sep.is_empty() {
             let u = w.unit("ws");
             w.put(u, sep.as_bytes());
+        }
+        if i == c2pa_child {
+            let a = k.find("<c2pa:manifest>").unwrap();
+            let b = k.find("</c2pa:manifest>").unwrap() + "</c2pa:manifest>".len();
+            w.put("C2PA-metadata.open", k[..a].as_bytes());
+            w.put("C2PA.data", k[a..b].as_bytes());
+            w.put("C2PA-metadata.close", k[b..].as_bytes());
+            w.note("c2pa");
+            continue;
         }
         let u = w.unit("child");
         w.put(u, k.as_bytes());
@@ -2372,29 +2479,50 @@ fn gen_bmff(cx: &mut Cx, w: &mut W, kind: &str) {
     }
     if image {
         // meta: hdlr, pitm, iloc, iinf, optional idat
-        let iloc_v = cx.pick(&[0u8, 1]);
+        let iloc_v = if cx.variant == "iloc-v1-base-noindex" { 1 } else { cx.pick(&[0u8, 1, 0, 1, 2]) };
         let nitems = cx.range(1, 3);
-        let offset_size = cx.pick(&[4usize, 8]);
         let length_size = cx.pick(&[4usize, 8]);
         // base offsets: 0 (absolute extent offsets) or a real base with relative extents. With version 1 the SDK
         // reads a phantom extent_index of base_offset_size bytes, so version 1 keeps base_offset_size == 0
         // (or index_size == base_offset_size, where both parsers agree).
-        let base_size = if iloc_v == 0 { cx.pick(&[0usize, 4, 8]) } else { cx.pick(&[0usize, 0, 4]) };
-        let index_size = if iloc_v == 1 { base_size } else { 0 };
+        let mut base_size = if iloc_v != 1 { cx.pick(&[0usize, 4, 8]) } else { cx.pick(&[0usize, 0, 4]) };
+        let mut index_size = if iloc_v == 1 { base_size } else { 0 };
+        if cx.variant == "iloc-v1-base-noindex" {
+            base_size = 4;
+            index_size = 0;
+        }
+        if cx.variant == "iloc-zero-base" {
+            base_size = 4;
+            index_size = if iloc_v == 1 { 4 } else { 0 };
+        }
+        if !cx.variant.is_empty() {
+            w.note(format!("variant {}", cx.variant));
+        }
+        // offset_size 0 (as AVIF writers do): every item is a single extent located by its base offset alone
+        let all_single = base_size > 0 && cx.variant.is_empty() && cx.chance(1, 3);
+        let offset_size = if all_single { 0 } else { cx.pick(&[4usize, 8]) };
         let mut iloc = vec![((offset_size << 4) | length_size) as u8, ((base_size << 4) | index_size) as u8];
-        iloc.extend_from_slice(&be16(nitems));
+        if iloc_v == 2 {
+            iloc.extend_from_slice(&be32(nitems));
+        } else {
+            iloc.extend_from_slice(&be16(nitems));
+        }
         let mut fix = vec![];
         let mut idat: Vec<u8> = vec![];
         let put_n = |v: &mut Vec<u8>, n: usize, val: usize| v.extend_from_slice(&(val as u64).to_be_bytes()[8 - n..]);
         let mdat_for_items = cx.range(0, nmdat - 1);
         for it in 0..nitems {
-            iloc.extend_from_slice(&be16(it + 1));
-            let in_idat = iloc_v == 1 && cx.chance(1, 4);
-            if iloc_v == 1 {
+            if iloc_v == 2 {
+                iloc.extend_from_slice(&be32(it + 1));
+            } else {
+                iloc.extend_from_slice(&be16(it + 1));
+            }
+            let in_idat = iloc_v >= 1 && !all_single && cx.chance(1, 4);
+            if iloc_v >= 1 {
                 iloc.extend_from_slice(&be16(if in_idat { 1 } else { 0 }));
             }
             iloc.extend_from_slice(&be16(0)); // data_reference_index
-            let next = cx.range(1, 2);
+            let next = if all_single { 1 } else { cx.range(1, 2) };
             let per = (cx.size / nitems / next).max(1);
             if in_idat {
                 put_n(&mut iloc, base_size, 0);
@@ -2418,7 +2546,7 @@ fn gen_bmff(cx: &mut Cx, w: &mut W, kind: &str) {
             }
             // the SDK shifts a 4/8-byte base_offset unconditionally and, when it is zero, the extent offsets
             // as well; a zero base with non-zero extents would be shifted twice, so a base, when present, is real
-            let use_base = base_size > 0;
+            let use_base = base_size > 0 && cx.variant != "iloc-zero-base";
             if use_base {
                 let total: usize = ids.iter().map(|i| blobs[*i].data.len()).sum();
                 fix.push(Fix { rel: iloc.len(), width: base_size as u8, blob: ids[0], minus: None, table: format!("iloc.item{}.base", it + 1), len: total });
@@ -2430,7 +2558,9 @@ fn gen_bmff(cx: &mut Cx, w: &mut W, kind: &str) {
                     put_n(&mut iloc, index_size, 0);
                 }
                 if use_base {
-                    fix.push(Fix { rel: iloc.len(), width: offset_size as u8, blob: *id, minus: Some(ids[0]), table: String::new(), len: 0 });
+                    if offset_size > 0 {
+                        fix.push(Fix { rel: iloc.len(), width: offset_size as u8, blob: *id, minus: Some(ids[0]), table: String::new(), len: 0 });
+                    }
                 } else {
                     fix.push(Fix { rel: iloc.len(), width: offset_size as u8, blob: *id, minus: None, table: format!("iloc.item{}.extent{e}", it + 1), len: blobs[*id].data.len() });
                 }
@@ -2489,33 +2619,35 @@ fn gen_bmff(cx: &mut Cx, w: &mut W, kind: &str) {
         mdat_layout.push((filler, groups.into_iter().flatten().collect()));
     }
     let mut mdat_large = vec![];
+    // (box, index into mdat_layout when the box is an mdat)
+    let mut tops: Vec<(Bx, Option<usize>)> = tops.into_iter().map(|t| (t, None)).collect();
     for m in 0..nmdat {
         mdat_large.push(cx.chance(1, 3));
         let (filler, order) = &mdat_layout[m];
         let n: usize = filler + order.iter().map(|i| blobs[*i].data.len()).sum::<usize>();
         // the payload is written separately (blob by blob) so that regions name each chunk
-        tops.push(Bx::Leaf { typ: *b"mdat", full: None, uuid: None, data: vec![0; n], fix: vec![], large: mdat_large[m], size0: false });
+        tops.push((Bx::Leaf { typ: *b"mdat", full: None, uuid: None, data: vec![0; n], fix: vec![], large: mdat_large[m], size0: false }, Some(m)));
     }
     for _ in 0..(if cx.chance(1, 2) { cx.range(1, 2) } else { 0 }) {
         let n = cx.range(0, 40);
-        tops.push(leaf(cx.pick(&[b"free", b"skip", b"free"]), vec![0; n]));
+        tops.push((leaf(cx.pick(&[b"free", b"skip", b"free"]), vec![0; n]), None));
     }
     if kind == "mov" && cx.chance(1, 2) {
-        tops.push(leaf(b"wide", vec![]));
+        tops.push((leaf(b"wide", vec![]), None));
     }
     if cx.chance(1, 5) {
-        tops.push(Bx::Leaf { typ: *b"uuid", full: None, uuid: Some(BMFF_XMP_UUID), data: cx.xmp(), fix: vec![], large: false, size0: false });
+        tops.push((Bx::Leaf { typ: *b"uuid", full: None, uuid: Some(BMFF_XMP_UUID), data: cx.xmp(), fix: vec![], large: false, size0: false }, None));
         w.note("xmp-uuid");
     }
     if let Some(s) = cx.store.clone() {
         let mut d = b"manifest\0".to_vec();
         d.extend_from_slice(&[0; 8]);
         d.extend(s);
-        tops.push(Bx::Leaf { typ: *b"uuid", full: Some((0, 0)), uuid: Some(BMFF_C2PA_UUID), data: d, fix: vec![], large: false, size0: false });
+        tops.push((Bx::Leaf { typ: *b"uuid", full: Some((0, 0)), uuid: Some(BMFF_C2PA_UUID), data: d, fix: vec![], large: false, size0: false }, None));
     }
     cx.shuffle(&mut tops);
     // a last 32-bit mdat may declare size 0 ("to end of file")
-    if let Some(Bx::Leaf { typ, large, size0, .. }) = tops.last_mut() {
+    if let Some((Bx::Leaf { typ, large, size0, .. }, _)) = tops.last_mut() {
         if typ == b"mdat" && !*large && cx.chance(1, 4) {
             *size0 = true;
             w.note("mdat-size0");
@@ -2525,31 +2657,28 @@ fn gen_bmff(cx: &mut Cx, w: &mut W, kind: &str) {
     // layout pass: absolute offsets of every blob
     let mut at = bx_size(&ftyp);
     let mut blob_off = vec![0usize; blobs.len()];
-    let mut mi = 0;
     let mut order_names = vec![];
-    for t in &tops {
+    for (t, mi) in &tops {
         let (typ, is_c2pa) = match t {
             Bx::Leaf { typ, uuid, .. } => (typ, uuid.map(|u| u == BMFF_C2PA_UUID).unwrap_or(false)),
             Bx::Cont { typ, .. } => (typ, false),
         };
         order_names.push(if is_c2pa { "C2PA".to_string() } else { String::from_utf8_lossy(typ).trim_end().to_string() });
-        if typ == b"mdat" {
-            let (filler, order) = &mdat_layout[mi];
+        if let Some(mi) = mi {
+            let (filler, order) = &mdat_layout[*mi];
             let mut p = at + bx_hdr_len(t) + filler;
             for i in order {
                 blob_off[*i] = p;
                 p += blobs[*i].data.len();
             }
-            mi += 1;
         }
         at += bx_size(t);
     }
     // write
     bx_write(w, &ftyp, "", &blob_off);
-    let mut mi = 0;
-    for t in &tops {
-        match t {
-            Bx::Leaf { typ, large, size0, .. } if typ == b"mdat" => {
+    for (t, mi) in &tops {
+        match (t, mi) {
+            (Bx::Leaf { large, size0, .. }, Some(mi)) => {
                 let u = w.unit("mdat");
                 let total = bx_size(t);
                 let mut h = vec![];
@@ -2562,7 +2691,7 @@ fn gen_bmff(cx: &mut Cx, w: &mut W, kind: &str) {
                     h.extend_from_slice(b"mdat");
                 }
                 w.put(format!("{u}.hdr"), &h);
-                let (filler, order) = &mdat_layout[mi];
+                let (filler, order) = &mdat_layout[*mi];
                 if *filler > 0 {
                     let f = cx.bytes(*filler);
                     w.put(format!("{u}.filler"), &f);
@@ -2571,7 +2700,6 @@ fn gen_bmff(cx: &mut Cx, w: &mut W, kind: &str) {
                     debug_assert_eq!(w.pos(), blob_off[*i]);
                     w.put(format!("{u}.{}", blobs[*i].name), &blobs[*i].data);
                 }
-                mi += 1;
             }
             _ => bx_write(w, t, "", &blob_off),
         }
